@@ -543,6 +543,8 @@ func (p *c19) joinSplitMulti(rec *core.Recorder) {
 	}
 }
 
+type c19Glue string
+
 func (p *c19) joinSplit(rec *core.Recorder, r *core.Rand) {
 	rec.Count("law:join-split", 1)
 	seps := []string{",", ";", "|", "-", " ", "/", ":", "#", "x", "é"}
@@ -557,10 +559,20 @@ func (p *c19) joinSplit(rec *core.Recorder, r *core.Rand) {
 	if n == 1 && l[0] == "" {
 		l[0] = "solo"
 	}
+	var sepVal interface{} = sep
+	if core.Hash64(sep, canonList(l), "glue-kind")%4 == 0 {
+		// the same separator value, of a type that is not a Go string: whatever text join makes of it, split makes the same
+		for i := range l {
+			l[i] = []string{"alpha", "b", "é", "日本", "Zed", "qq"}[(i*7+len(sep)+n)%6]
+		}
+		sepVal = []interface{}{0, 7, c19Glue("-"), 2.5, true, int64(-3), c19Glue("::")}[core.Hash64(canonList(l), sep)%7]
+		sep = fmt.Sprintf("%T(%v)", sepVal, sepVal)
+		rec.Count("separators-that-are-not-strings", 1)
+	}
 	input := sep + canonList(l)
 	rec.Eval("join-split", input, n >= 3)
 	src := "{{ v|join(sep)|split(sep)|json_encode }}"
-	out, err, res := c19R(src, map[string]interface{}{"v": l, "sep": sep})
+	out, err, res := c19R(src, map[string]interface{}{"v": l, "sep": sepVal})
 	cs := map[string]any{"list": canonList(l), "sep": sep}
 	if res.Panicked {
 		rec.Violate("panic", "panic@"+res.Site, "engine panicked: "+res.PanicVal, cs, res.Stack)
